@@ -743,6 +743,17 @@ fn restart(ctx: &mut Ctx, s: &mut Session) -> Step {
                 if h1 == h0 {
                     return ctx.fail(Prop::C04, "hash.component-ignored", format!("component={};via=Hash", what.trim_end_matches(char::is_numeric)), format!("{} and {} differ in {what} but feed the same value to a Hasher", fen, q.fen()));
                 }
+                // the key this component contributes, as the hash really uses it (the two
+                // positions differ in nothing else), must not be the key of another kind of
+                // component: an en-passant file that hashes like a pawn on a square, say
+                let delta = z0 ^ z1;
+                let comp = what.trim_end_matches(char::is_numeric);
+                for (kind, keys) in table_keys() {
+                    if *kind != comp && keys.contains(&delta) {
+                        return ctx.fail(Prop::C04, "hash.component-key-clash", format!("component={comp};with={kind}"), format!("{} and {} differ in {what} only; the difference of their hashes, {delta:#x}, is the key of a {kind} component", fen, q.fen()));
+                    }
+                }
+                ctx.stats.bump("c04.effective-key-probes");
             }
         }
     }
@@ -1067,6 +1078,28 @@ fn corrupt_text(ctx: &mut Ctx, text: &str, other: &str) -> (Vec<u8>, String) {
         }
     }
     (b, ops.join("+"))
+}
+
+/// the repository's key tables by kind of component, read through its public accessors
+fn table_keys() -> &'static [(&'static str, std::collections::HashSet<u64>)] {
+    use chess_bitboard::{Color, File, Piece, Pos};
+    static KEYS: std::sync::OnceLock<Vec<(&'static str, std::collections::HashSet<u64>)>> = std::sync::OnceLock::new();
+    KEYS.get_or_init(|| {
+        let mut piece = std::collections::HashSet::new();
+        for sq in 0..64u8 {
+            for p in [Piece::Pawn, Piece::Knight, Piece::Bishop, Piece::Rook, Piece::Queen, Piece::King] {
+                for c in [Color::White, Color::Black] {
+                    if let Some(pos) = Pos::from_u8(sq) {
+                        piece.insert(chess_lookup::zobrist(pos, p, c));
+                    }
+                }
+            }
+        }
+        let right: std::collections::HashSet<u64> = (0..16).map(chess_lookup::castle_rights_zobrist).collect();
+        let ep: std::collections::HashSet<u64> = (0..8u8).filter_map(File::from_u8).map(chess_lookup::en_passant_zobrist).collect();
+        let side: std::collections::HashSet<u64> = [Color::White, Color::Black].into_iter().map(chess_lookup::turn_zobrist).collect();
+        vec![("piece", piece), ("right", right), ("ep", ep), ("side", side)]
+    })
 }
 
 /// try to recover from a damaged record; on acceptance the session may continue from it
